@@ -2,7 +2,7 @@
    the round-trip theorem covers, evaluated by the kernel on every build.            *)
 From Coq Require Import NArith ZArith List String Bool.
 From V Require Import Base.UString Base.Json Model.SchemaTypes Model.PyBase Model.Schema.
-From V Require Import Proofs.C01Roundtrip Gen.Tables.
+From V Require Import Proofs.C01Roundtrip Proofs.C01Parse Gen.Tables.
 Import ListNotations.
 
 Definition lib_proved_ids : list ustring := Eval vm_compute in proved_ids variant_repaired lib.
@@ -18,3 +18,16 @@ Definition lib_unproved_ids : list ustring :=
 
 (* how many of the classes are covered; the check prints both lists into the evidence *)
 Definition lib_coverage : nat * nat := Eval vm_compute in (List.length lib_proved_ids, List.length (wclasses lib)).
+
+(* parse entry points: the proved classes whose tables also pass parse_class_ok *)
+Definition lib_parse_ids : list ustring :=
+  Eval vm_compute in filter (fun k => match find_class (wclasses lib) k with Some c => parse_class_ok lib c | None => false end) lib_proved_ids.
+
+Lemma lib_parse_sub : forallb (fun k => mem_ustr k lib_proved_ids) lib_parse_ids = true.
+Proof. vm_compute. reflexivity. Qed.
+
+Lemma lib_parse_ok : forallb (fun k => match find_class (wclasses lib) k with Some c => parse_class_ok lib c | None => false end) lib_parse_ids = true.
+Proof. vm_compute. reflexivity. Qed.
+
+Lemma lib_registry_ok : registry_ok lib = true.
+Proof. vm_compute. reflexivity. Qed.
